@@ -270,7 +270,7 @@ example : (run [.startSource 5, .startSource 9]).sourceMap.lookup 1 = some 5 := 
 
 /-! ## the code generator's call sites (emission skeleton, `Printer/Codegen.lean`)
 
-OPEN (false of the code as it is, see the counterexamples and `known_findings.json` F9a/F9b/F9c):
+OPEN (false of the code as it is, see the counterexamples and `known_findings.json` F9a/F9b):
 
     theorem codegen_line_map_correct (items : List Codegen.Item) (g o : Nat)
         (ho : ownerAt (run (Codegen.emitAll items)) g = some o) :
@@ -278,9 +278,12 @@ OPEN (false of the code as it is, see the counterexamples and `known_findings.js
 -/
 
 /-- **partial**: the constructs whose observable lines are written under a `start_source` of their own
-    line – text, `${}`, control lines, `<% %>` / `<%! %>` blocks, `<%include>`, the header of an
-    undecorated callable whose tag line is what `start_source` gets, epilogues that apply no filter –
-    in any number and any order give a well-marked sequence … -/
+    line – text, `${}`, control lines, `<% %>` / `<%! %>` blocks, `<%include>`, and since 2159d82 the
+    header (with decorator) of a callable whose tag line is what `start_source` gets, inline def
+    headers, the `<%call>` wrapper lines, filter / buffer epilogues of defs and blocks, the filter of
+    `<%text>`, the cache wrapper's header, `_mako_inherit` – in any number and any order give a
+    well-marked sequence.  Still outside: def stubs, `<%block>` call sites, `render_body` opened with
+    line 0, and declaration lines that follow an inline def (the counterexamples below). -/
 theorem codegen_marked_partial (items : List Codegen.Item) (h : ∀ it ∈ items, it.marked = true) :
     wellMarked (Codegen.emitAll items) = true := by
   obtain ⟨w, hw, _⟩ := Codegen.wm_items items {} rfl h
@@ -292,9 +295,12 @@ theorem codegen_line_map_partial (items : List Codegen.Item) (h : ∀ it ∈ ite
     fillAt (run (Codegen.emitAll items)).sourceMap g = o :=
   line_map_correct _ (codegen_marked_partial items h) g o ho
 
-example : ∀ it ∈ [Codegen.Item.hdr 0, .blanks 2, .callableHead 2 2 false true false, .text 1, .expr 3 1,
+example : ∀ it ∈ [Codegen.Item.hdr 0, .blanks 2, .inherit 1, .callableHead 2 2 true true true, .text 1, .expr 3 1,
     .code 4 "\nx = 1\n".toList true, .control 7 true false, .incl 8, .controlEnd true,
-    .finish 2 true true false false, .callableTail], it.marked = true := by decide
+    .inlineDefHead 9 true true false, .text 10, .finish 9 true true false false false, .inlineDefTail,
+    .callHead 11, .text 12, .finish 11 true false false false false, .callTail 11,
+    .textTagHead, .text 13, .textTagTail 13,
+    .finish 2 false true false true true, .callableTail, .cacheHead 2 true], it.marked = true := by decide
 
 /-- F9a: `render_body` of a template without `<%page>` is opened with `start_source(0)`: its observable
     preamble lines (strict-undefined `raise NameError`, namespace fetches, def stubs) map to template
@@ -314,47 +320,12 @@ theorem block_call_counterexample :
     let s := run (Codegen.emitAll [.callableHead 1 1 false false false, .text 1, .blockCall 4 false])
     ownerAt s 6 = some 4 ∧ fillAt s.sourceMap 6 = 1 := by decide
 
-/-- F9b: the header of an inline (nested) def whose argument defaults are evaluated there (tag on line
-    7) inherits the line of the last node of the previous inline def -/
-theorem inline_def_header_counterexample :
-    let s := run (Codegen.emitAll [.callableHead 2 2 false false false, .inlineDefHead 4 false false false,
-      .text 5, .finish 4 true true false false, .inlineDefTail, .inlineDefHead 7 false true false])
-    ownerAt s 11 = some 7 ∧ fillAt s.sourceMap 11 = 5 := by decide
-
-/-- F9b: `<%call>` (tag on line 7): the line that builds the caller namespace (and evaluates the body's
-    argument defaults through `ccall`) is written before `start_source(7)` and inherits the line of the
-    last node of the call's body -/
-theorem call_tag_counterexample :
-    let s := run (Codegen.emitAll [.callableHead 1 1 false false false, .text 5, .callHead, .mid 7 false 0,
-      .text 8, .finish 7 true false false false, .callTail 7])
-    ownerAt s 10 = some 7 ∧ fillAt s.sourceMap 10 = 8 ∧ fillAt s.sourceMap 12 = 7 := by decide
-
-/-- F9b: the filter of `<%def filter="…">` (tag on line 2) is applied in the epilogue, which inherits
-    the line of the last node of the def's body -/
-theorem def_epilogue_counterexample :
-    let s := run (Codegen.emitAll [.callableHead 2 2 false false true, .text 3, .expr 4 0,
-      .finish 2 false true false true])
-    ownerAt s 10 = some 2 ∧ fillAt s.sourceMap 10 = 4 := by decide
-
-/-- F9b: the wrapper of a cached def (tag on line 2) inherits the line of the last node of the body -/
-theorem cache_wrapper_counterexample :
-    let s := run (Codegen.emitAll [.callableHead 2 2 false false true, .expr 4 0,
-      .finish 2 false true true false, .callableTail, .cacheHead 2 false, .cacheTail 2 false])
-    ownerAt s 14 = some 2 ∧ fillAt s.sourceMap 14 = 4 := by decide
-
-/-- F9b: `_mako_inherit` (tag on line 3) is written without `start_source`: its frame gets whatever the
-    map says at that point (1 when nothing was marked before) -/
-theorem inherit_counterexample :
-    let s := run (Codegen.emitAll [.hdr 0, .blanks 2, .inherit 3])
-    ownerAt s 5 = some 3 ∧ fillAt s.sourceMap 5 = 1 := by decide
-
-/-- F9b: the decorator line of a top-level def (tag on line 10) is written *before* the def's
-    `start_source`: a warning in the decorator expression is reported on the last line of the previous
-    callable -/
-theorem decorator_counterexample :
-    let s := run (Codegen.emitAll [.callableHead 5 5 false false false, .text 7, .finish 5 true true false false,
-      .callableTail, .callableHead 10 10 true false false])
-    ownerAt s 10 = some 10 ∧ fillAt s.sourceMap 10 = 7 ∧ fillAt s.sourceMap 11 = 10 := by decide
+/-- F9b: the declarations of a callable (`<%page>` on line 3) that follow an inline def in its preamble –
+    here the strict-undefined `raise NameError` – inherit the line of the last node of that inline def -/
+theorem preamble_after_inline_def_counterexample :
+    let s := run (Codegen.emitAll [.callableHead 3 3 false false false, .inlineDefHead 10 false false false,
+      .text 12, .finish 10 true true false false false, .inlineDefTail, .mid 3 true 0])
+    ownerAt s 11 = some 3 ∧ fillAt s.sourceMap 11 = 12 := by decide
 
 /-! ## `RichTraceback` -/
 
